@@ -59,8 +59,14 @@ def impl_view(P, D, M, work_by_stage):
             ga.dist.new_group = ng
             stage = topo.get_coord(r).pipe
             work = work_by_stage[stage]
+            if len(work) > 1:
+                # the same mapping in a rank-dependent insertion order: the assignment is a function of the mapping, not of the order
+                items = list(work.items()); k_ = r % len(items)
+                work = dict(items[k_:] + items[:k_]) if r % 2 else dict(reversed(items[k_:] + items[:k_]))
             a = ga.GPTNeoXAssignment(work, local_rank=r, topology=topo, data_parallel_group='DP', model_parallel_group='MP')
-            layers = list(a.get_layers())
+            got_layers = list(a.get_layers())
+            # per-layer answers are listed in the order of the ORIGINAL mapping (this rank's own key order is irrelevant)
+            layers = [l for l in work_by_stage[stage].keys() if l in got_layers] + [l for l in got_layers if l not in work_by_stage[stage]]
             pg = a.pipe_parallel_peer_group
             views.append({
                 'inv': {l: {f: a.inv_worker(l, f) for f in a.get_factors(l)} for l in layers},
